@@ -59,6 +59,8 @@ def population(rng):
     all_nodes = nodes + idents
     for _ in range(rng.choice([3, 4, 6])):
         a, b = rng.choice(all_nodes), rng.choice(all_nodes)
+        if rng.random() < 0.15:
+            b = a                      # a relationship from an object to itself is one relationship
         r = {"type": "relationship", "spec_version": "2.1", "id": g.new_id("relationship"), "created": "2019-01-01T00:00:00.000Z",
              "modified": "2019-01-01T00:00:00.000Z", "relationship_type": rng.choice(["uses", "targets", "related-to", "uses"]),
              "source_ref": a["id"], "target_ref": b["id"] if rng.random() < 0.85 else g.new_id("tool")}
@@ -163,6 +165,9 @@ def exercise(ctx, rng, name, src, model, case, full=True, env=None):
                 exp = scan_relationships(items, sid, rt, so, to)
                 ctx.ev()
                 ctx.count("navigations")
+                if len(keys(rels)) != len(set(keys(rels))):
+                    ctx.violation("relationships-duplicates", "%s.relationships(%s, source_only=%s, target_only=%s) lists the same relationship version more than once" % (name, sid.split("--")[0], so, to),
+                                  dict(case, operation="relationships", id=sid, relationship_type=rt, source_only=so, target_only=to, returned=len(keys(rels)), distinct=len(set(keys(rels)))))
                 if set(keys(rels)) != {key(x) for x in exp}:
                     ctx.violation("relationships-mismatch", "%s.relationships(%s, type=%s, source_only=%s, target_only=%s): %d expected, %d returned" % (
                         name, sid.split("--")[0], rt, so, to, len(exp), len(set(keys(rels)))),
@@ -252,6 +257,16 @@ def wl_partition(ctx, rng, i):
                         warnings.simplefilter("ignore")
                         res = cds.query([to_lib(x) for x in q])
                         judge_set(ctx, "CompositeDataSource.query(with attached filter)", res, exp, dict(c2, attached=fdesc(f), query=[fdesc(x) for x in q]))
+                        # ... and to its relationship navigation
+                        passing = evaluate([f], union.items, TS_PROPS)
+                        for sid in rng.sample(union.ids(), min(3, len(union.ids()))):
+                            rels = cds.relationships(sid)
+                            ctx.ev()
+                            ctx.count("attached_filter_navigations")
+                            if set(keys(rels)) != {key(x) for x in scan_relationships(passing, sid, None, False, False)}:
+                                ctx.violation("composite-filter-not-applied-to-member:relationships", "composite with attached filter %s: relationships() differs from a scan of what the filter lets through" % (fdesc(f),),
+                                              dict(c2, attached=fdesc(f), id=sid, returned=len(rels)))
+                                break
                         for sid in rng.sample(union.ids(), min(4, len(union.ids()))):
                             g = cds.get(sid)
                             av = cds.all_versions(sid)
